@@ -96,7 +96,35 @@ def text(t):
         return f"{k} {j(t[1])} " + text(t[2])
     if k == "ref":
         return f"ref {t[1]}"
+    if k == "st":
+        # statically typed nesting of the top t[1] levels of t[2]: specs outermost first, the innermost main source,
+        # then the second sources of the binary levels, innermost first (= left to right in the tree)
+        specs, seconds, cur = [], [], t[2]
+        for _ in range(t[1]):
+            sp, main, sec = level_spec(cur)
+            specs.append(sp)
+            seconds.append(sec)
+            cur = main
+        return (f"st {t[1]} " + " ".join(specs) + " " + text(cur) +
+                "".join(" " + text(x) for x in reversed(seconds) if x is not None))
     raise ValueError(k)
+
+
+def level_spec(t):
+    """(spec text, main source, second source or None) of one adaptor level (see harness/src/bin/c0405.rs, `st`)"""
+    k = t[0]
+    j = lambda xs: " ".join(str(x) for x in xs)
+    if k in ("scale", "offset", "clip", "inspect", "delay"):
+        return f"{k} {t[1]}", t[2], None
+    if k in ("scalepc", "offsetpc"):
+        return f"{k} {j(t[1])}", t[2], None
+    if k == "map":
+        return f"map {t[1]} {t[2]} {t[3]}", t[4], None
+    if k in ("add", "mul"):
+        return k, t[1], t[2]
+    if k == "zip":
+        return f"zip {t[1]} {t[2]}", t[3], t[4]
+    raise ValueError("not an adaptor level: " + str(k))
 
 
 def coq(t):
@@ -131,6 +159,8 @@ def coq(t):
         return f"(TOffsetPC {zl(t[1])} {coq(t[2])})"
     if k == "ref":
         return f"(TRef {z(t[1])})"
+    if k == "st":  # the model side is the ordinary nested tree
+        return coq(t[2])
     raise ValueError(k)
 
 
@@ -203,7 +233,7 @@ def children(t):
         return [t[3], t[4]]
     if k in ("add", "mul"):
         return [t[1], t[2]]
-    if k in ("scale", "offset", "clip", "inspect", "delay", "scalepc", "offsetpc"):
+    if k in ("scale", "offset", "clip", "inspect", "delay", "scalepc", "offsetpc", "st"):
         return [t[2]]
     return []
 
@@ -211,6 +241,8 @@ def children(t):
 def depth(t, bases=()):
     if t[0] == "ref" and bases:
         return depth(bases[t[1]])
+    if t[0] == "st":
+        return depth(t[2], bases)
     cs = children(t)
     return 1 + max(depth(c, bases) for c in cs) if cs else 0
 
@@ -291,6 +323,8 @@ def bound(t, fm, base_bounds=(), arg_bound=0):
     if k == "arg":
         return arg_bound
     rec = lambda c: bound(c, fm, base_bounds, arg_bound)
+    if k == "st":
+        return rec(t[2])
     if k == "map":
         b = rec(t[4])
         if t[2] == 1:
@@ -556,6 +590,80 @@ def valid(item):
 
 
 # ---------------------------------------------------------------------------
+# counts at type-width boundaries: delay(k), take(n)
+#
+# The model side receives the TRUE counts: Signal/SigRun.v clamps every delay length to 1 + the number of calls of next
+# the case can make (norm_case; SigRunNormProofs.run_ops_norm: running the normalised case is running the case) and
+# counts take(n) in Z.  Every run here is a handful of calls, so a counter that was narrowed (u8 / u16 / u32), read as
+# signed (i16 / i32 / i64) or routed through a float (24 / 53 bit mantissa) shows in the first frames: the silence ends
+# at once (or after k mod 2^w frames), a borrowed source is advanced, is_exhausted answers early, take stops early,
+# size_hint / len report the wrong remainder.
+
+COUNT_WIDTHS = (8, 15, 16, 24, 31, 32, 33, 53, 63)
+
+
+def boundary_counts():
+    vs = []
+    for w in COUNT_WIDTHS:
+        vs += [(1 << w) - 1, 1 << w, (1 << w) + 1, (1 << w) + 2, (1 << w) + 5]
+    vs += [3 * (1 << 32) + 1, 5 * (1 << 32), (1 << 40) + 3, (1 << 63) + (1 << 32), (1 << 64) - (1 << 32),
+           (1 << 64) - (1 << 32) + 1, (1 << 64) - 2, (1 << 64) - 1]
+    return vs
+
+
+COUNT_FMTS = ["i16x2", "u8x3", "i32x1", "i16x2", "f64x1", "u8x3", "i24x1", "f32x2", "i32x1", "u48x1", "i16x2", "u16x1", "i64x1"]
+
+
+def count_ctx(g, inner, depth):
+    """`inner` under up to `depth` random adaptor levels: pointwise unary ones, small delays, binary ones with a fresh
+    leaf on either side -- the long delay / the borrowed base sits at any position of the tree"""
+    r, t = g.r, inner
+    for _ in range(depth):
+        k = r.below(10)
+        if k < 5:
+            t = g.unary(g.unary_kind(), t)
+        elif k < 6:
+            t = g.unary("delay", t)
+        else:
+            other = g.leaf()
+            kind = r.choice(BINARY)
+            t = g.binary(kind, t, other) if r.chance(1, 2) else g.binary(kind, other, t)
+    return t
+
+
+def count_item(fm, bases, ops, tag):
+    return build(dict(fmt=fm, bases=bases, ops=ops, wide=False, family=tag))
+
+
+def max_count(t, bases=()):
+    return max([nd[1] for nd in nodes(t, bases) if nd[0] == "delay"] + [0])
+
+
+def count_label(k):
+    if k >= (1 << 64) - 4:
+        return "usize::MAX" + (f"{k - ((1 << 64) - 1):+d}" if k != (1 << 64) - 1 else "")
+    w = min(range(65), key=lambda w: abs(k - (1 << w)))  # nearest power of two
+    d = k - (1 << w)
+    return (f"2^{w}" + (f"{d:+d}" if d else "")) if abs(d) <= 8 else f"~2^{w}"
+
+
+def count_hist(items):
+    """which boundary values were used, as delay lengths and as take counts (evidence)"""
+    h = {}
+    for it in items:
+        for o in it["ops"]:
+            ks = [("delay", nd[1]) for nd in nodes(op_tree(o), it["bases"]) if nd[0] == "delay" and nd[1] >= 255]
+            if o[0] == "T" and o[1] >= 255:
+                ks.append(("take", o[1]))
+            if o[0] == "IT" and o[1] == 1 and o[2] >= 255:
+                ks.append(("take", o[2]))
+            for what, k in ks:
+                key = f"{what}:{count_label(k)}"
+                h[key] = h.get(key, 0) + 1
+    return h
+
+
+# ---------------------------------------------------------------------------
 # common check flow
 
 
@@ -705,8 +813,8 @@ def finish(rep, prop, info, n, nontriv, dist, samples, rule, expl, tnote, extra)
 
 def model_eval(tag, it):
     if it.get("gen"):
-        return F.coq_eval(tag, HEADER_GEN, f"run_gcase ({it['coq']})")
-    return F.coq_eval(tag, HEADER, f"run_case ({it['coq']})")
+        return F.coq_eval(tag, HEADER_GEN, f"run_gcase_norm ({it['coq']})")
+    return F.coq_eval(tag, HEADER, f"run_case_norm ({it['coq']})")
 
 
 def replay(prop, path):
